@@ -78,6 +78,7 @@ func init() {
 			if r.chance(0.05) {
 				q.Body["biases"] = []interface{}{J{"name": "noSuchBias", "props": J{}}}
 			}
+			c02Invalidate(r, q)
 			reqs = append(reqs, q)
 		}
 		verdict := func(st int, b []byte) string {
